@@ -58,6 +58,11 @@ pub struct LeafScript {
     pub calls: Vec<(u8, Out)>,
     /// init future of the factory / transform / config function that creates this leaf
     pub init: Option<(u8, InitOut)>,
+    /// coupling of call futures through one shared permit (functional mode only): 1 = the call
+    /// future takes the permit when it is created (if free) and gives it back when it is dropped,
+    /// 2 = the call future cannot make progress while another future holds the permit
+    #[serde(default)]
+    pub permit: u8,
 }
 
 #[derive(Clone, Debug, PartialEq)]
@@ -106,6 +111,9 @@ pub struct FutState {
     pub waker: Option<Waker>,
     pub created_round: u32,
     pub fails: bool,
+    pub needs_permit: bool,
+    /// init future of a transform: the transform item it belongs to
+    pub creator: Option<usize>,
 }
 
 pub struct CountW(pub AtomicUsize);
@@ -128,6 +136,16 @@ pub struct World {
     pub scripts: Vec<LeafScript>,
     /// index of the request currently being served (selects readiness scripts)
     pub req_ix: Cell<usize>,
+    /// permit coupling enabled (functional mode)
+    pub permits: Cell<bool>,
+    pub permit_holder: Cell<Option<usize>>,
+    pub permit_waiter: RefCell<Option<Waker>>,
+    /// a future was refused progress because the permit was held
+    pub permit_blocked: Cell<bool>,
+    /// a hold-future took the permit and a need-future ran in the same case
+    pub permit_used: Cell<(bool, bool)>,
+    /// transform items whose object has been dropped
+    pub dropped_transforms: RefCell<Vec<usize>>,
 }
 
 pub type W = Rc<World>;
@@ -147,6 +165,12 @@ impl World {
             contract: RefCell::new(vec![]),
             scripts,
             req_ix: Cell::new(0),
+            permits: Cell::new(false),
+            permit_holder: Cell::new(None),
+            permit_waiter: RefCell::new(None),
+            permit_blocked: Cell::new(false),
+            permit_used: Cell::new((false, false)),
+            dropped_transforms: RefCell::new(vec![]),
         })
     }
 
@@ -261,6 +285,18 @@ impl Future for LeafFut {
         }
         f.polled_round = Some(w.round.get());
         f.waker_ok = w.is_cur(cx.waker());
+        if f.needs_permit {
+            let u = w.permit_used.get();
+            w.permit_used.set((u.0, true));
+            if let Some(h) = w.permit_holder.get() {
+                if h != self.ix {
+                    // whoever holds the permit gives it back when its future is dropped
+                    w.permit_blocked.set(true);
+                    *w.permit_waiter.borrow_mut() = Some(cx.waker().clone());
+                    return Poll::Pending;
+                }
+            }
+        }
         if f.countdown == 0 {
             f.done = true;
             let leaf = f.leaf;
@@ -270,6 +306,17 @@ impl Future for LeafFut {
         } else {
             f.waker = Some(cx.waker().clone());
             Poll::Pending
+        }
+    }
+}
+
+impl Drop for LeafFut {
+    fn drop(&mut self) {
+        if self.w.permit_holder.get() == Some(self.ix) {
+            self.w.permit_holder.set(None);
+            if let Some(wk) = self.w.permit_waiter.borrow_mut().take() {
+                wk.wake();
+            }
         }
     }
 }
@@ -318,7 +365,14 @@ impl Service<u32> for LeafSvc {
             waker: None,
             created_round: self.w.round.get(),
             fails: out.is_err(),
+            needs_permit: self.w.permits.get() && self.w.script(self.id).permit == 2,
+            creator: None,
         });
+        if self.w.permits.get() && self.w.script(self.id).permit == 1 && self.w.permit_holder.get().is_none() {
+            self.w.permit_holder.set(Some(futs.len() - 1));
+            let u = self.w.permit_used.get();
+            self.w.permit_used.set((true, u.1));
+        }
         LeafFut { ix: futs.len() - 1, out, w: self.w.clone() }
     }
 }
@@ -348,8 +402,16 @@ impl<T> Future for InitFut<T> {
         if f.countdown == 0 {
             f.done = true;
             let leaf = f.leaf;
-            let v = self.val.take().unwrap();
+            let creator = f.creator;
+            let mut v = self.val.take().unwrap();
             drop(futs);
+            // a transform's construction future belongs to the transform object: it fails if the
+            // object was shut down (dropped) while construction was still going on
+            if let Some(item) = creator {
+                if w.dropped_transforms.borrow().contains(&item) {
+                    v = Err(SHUT_DOWN);
+                }
+            }
             w.ev(Ev::InitDone { leaf, ok: v.is_ok() });
             Poll::Ready(v)
         } else {
@@ -358,6 +420,9 @@ impl<T> Future for InitFut<T> {
         }
     }
 }
+
+/// init error of a transform whose object was dropped while its construction future was running
+pub const SHUT_DOWN: u32 = 0xDEAD_0001;
 
 pub fn init_fut<T>(w: &W, item: usize, val: T) -> InitFut<T> {
     let (k, out) = w.script(item).init.unwrap_or((0, InitOut::Ok));
@@ -376,6 +441,8 @@ pub fn init_fut<T>(w: &W, item: usize, val: T) -> InitFut<T> {
         waker: None,
         created_round: w.round.get(),
         fails: v.is_err(),
+        needs_permit: false,
+        creator: None,
     });
     InitFut { ix: futs.len() - 1, val: Some(v), w: w.clone() }
 }
@@ -533,6 +600,14 @@ impl Transform<H, u32> for Tr {
     type Future = InitFut<PreSvc>;
     fn new_transform(&self, service: H) -> Self::Future {
         self.w.ev(Ev::NewTransform { item: self.item });
-        init_fut(&self.w, self.item, PreSvc { inner: service, pre: self.pre })
+        let f = init_fut(&self.w, self.item, PreSvc { inner: service, pre: self.pre });
+        self.w.futs.borrow_mut()[f.ix].creator = Some(self.item);
+        f
+    }
+}
+
+impl Drop for Tr {
+    fn drop(&mut self) {
+        self.w.dropped_transforms.borrow_mut().push(self.item);
     }
 }
